@@ -842,6 +842,17 @@ pid_t waitpid(pid_t pid, int *status, int options) {
     ENTER();
     int st = 0;
     pid_t r = r_waitpid(pid, &st, options);
+    if (ON && r > 0) {
+        /* fault: the child is gone before it can be waited for (SIGCHLD ignored by the parent's parent: the
+           kernel reaps it and waitpid answers ECHILD).  The real wait above has reaped it; its status is lost. */
+        struct rule *fr = match_rule("wait", "*", 0);
+        if (fr && fr->action == A_ERRNO) {
+            fr->fired++;
+            logf_("%lu wait -> -1 errno=%ld FAULT\n", seq++, fr->a1);
+            errno = (int)fr->a1;
+            return -1;
+        }
+    }
     if (status) *status = st;
     if (ON) {
         int e = errno;
